@@ -78,7 +78,7 @@ EMPTY = frozenset()
 
 def contradicts(facts, k, op, v):
     for (fk, fop, fv) in facts:
-        if fk != k or fop == "=:":
+        if fk != k or fop in ("=:", "cmp"):
             continue
         if op == "==":
             if fop == "==" and fv != v:
@@ -118,20 +118,45 @@ def add_fact(facts, k, op, v):
     new = set(facts)
     if op == "==":
         # subsumes other facts on k
-        new = {f for f in new if not (f[0] == k and f[1] != "=:")}
+        new = {f for f in new if not (f[0] == k and f[1] not in ("=:", "cmp"))}
     new.add((k, op, v))
     # propagate through aliases: x =: K  => facts on x also hold on K and vice versa
+    derived = []
     for (fk, fop, fv) in facts:
         if fop == "=:":
             if fk == k:
                 if contradicts(new, fv, op, v):
                     return None
-                new.add((fv, op, v))
+                if (fv, op, v) not in new:
+                    derived.append((fv, op, v))
             elif fv == k:
                 if contradicts(new, fk, op, v):
                     return None
-                new.add((fk, op, v))
-    return frozenset(new)
+                if (fk, op, v) not in new:
+                    derived.append((fk, op, v))
+        elif fop == "cmp" and fk == k:
+            # x was assigned the value of (L op2 C): a fact on x's truth is a fact on L
+            truth = None
+            if (op == "==" and v == 0):
+                truth = False
+            elif (op == "!=" and v == 0) or (op == "==" and v == 1):
+                truth = True
+            if truth is not None:
+                (lk, op2, c2) = fv
+                d = (lk, op2 if truth else NEG[op2], c2)
+                if d not in new:
+                    derived.append(d)
+                # the value of a comparison is 0 or 1
+                if truth and (k, "==", 1) not in new and not (op == "==" and v == 1):
+                    derived.append((k, "==", 1))
+    res = frozenset(new)
+    for (dk, dop, dv) in derived:
+        if (dk, dop, dv) in res:
+            continue
+        res = add_fact(res, dk, dop, dv)
+        if res is None:
+            return None
+    return res
 
 
 def assume(facts, cond, truth):
@@ -169,17 +194,20 @@ def assume(facts, cond, truth):
 def kill_var(facts, name):
     """Forget everything known about variable `name` (it was reassigned)."""
     return frozenset(f for f in facts
-                     if not _mentions(f[0], name) and not (f[1] == "=:" and _mentions(str(f[2]), name)))
+                     if not _mentions(f[0], name) and not (f[1] == "=:" and _mentions(str(f[2]), name))
+                     and not (f[1] == "cmp" and _mentions(f[2][0], name)))
 
 
 def kill_path(facts, path):
     """Forget facts mentioning access path `path` (e.g. 'sem->sem_hdl')."""
     return frozenset(f for f in facts
-                     if path not in f[0] and not (f[1] == "=:" and path in str(f[2])))
+                     if path not in f[0] and not (f[1] == "=:" and path in str(f[2]))
+                     and not (f[1] == "cmp" and path in f[2][0]))
 
 
 def kill_key(facts, k):
-    return frozenset(f for f in facts if k not in f[0] and not (f[1] == "=:" and k in str(f[2])))
+    return frozenset(f for f in facts if k not in f[0] and not (f[1] == "=:" and k in str(f[2]))
+                     and not (f[1] == "cmp" and k in f[2][0]))
 
 
 def transfer(facts, stmt, kill_calls=True, heap_kill=True, stable=()):
@@ -213,6 +241,12 @@ def transfer(facts, stmt, kill_calls=True, heap_kill=True, stable=()):
                     f = f | {(p, "==", val)}
                 else:
                     rk = key(n["r"])
+                    rs = strip_casts(n["r"])
+                    if rs is not None and rs["k"] == "bin" and rs["op"] in NEG and cv(rs["r"]) is not None:
+                        la = strip_casts(rs["l"])
+                        if la is not None and la["k"] == "asg":
+                            la = strip_casts(la["l"])
+                        f = f | {(p, "cmp", (key(la), rs["op"], cv(rs["r"])))}
                     if not _mentions(rk, p.split("-")[0].split(".")[0]) or strip_casts(n["r"])["k"] == "call":
                         f = f | {(p, "=:", rk)}
                         # import facts already known about the value
